@@ -688,7 +688,8 @@ def cursor_offset_pairs(run, fns, rule='R9', instance='offset-reset-with-cursor'
                     n += 1
                     run.touch(fn)
                     ev, _ = q.reaching_events(fn, steps + resets, c)
-                    bad = [x for x in ev if any(x is s_ for s_ in steps)]
+                    # a reset written next to the step (same basic block, either order) covers it
+                    bad = [x for x in ev if any(x is s_ for s_ in steps) and not any(q.paired(fn, x, r_) for r_ in resets)]
                     top = q.top_function(run.fx, fn).norm
                     run.check(not bad, rule, instance, '%s: %s + %s' % (top, q.render(fn, base)[:40], q.render(fn, off)), fn.loc(bad[0] if bad else c),
                               'the cursor %s is stepped (line %s) and the copy at line %s can be reached without %s being re-assigned: the offset still counts bytes of the PREVIOUS element, so the next chunk is written %s bytes into the new element - past its end for equally sized buffers - while the byte counts stay right'
